@@ -162,6 +162,47 @@ def _sym(px, func, e, depth, bound) -> typing.List[Alt]:
                                 out.append((tuple(conds) + c, p))
                     if out:
                         return out
+    # typing.cast(T, x) is x
+    if isinstance(e, ast.Call) and ast.unparse(e.func) in ("typing.cast", "cast") and len(e.args) == 2 and not e.keywords:
+        return _sym(px, func, e.args[1], depth, bound)
+    # a call of a small module-level helper buried inside an atom (`_name_of(x).replace('.', '_')`): one alternative per return of the helper,
+    # with the helper's value (parameters bound, locals spelled out, casts dropped) in place of the call
+    if depth > 0:
+        for hc in [n for n in ast.walk(e) if n is not e and isinstance(n, ast.Call) and isinstance(n.func, ast.Name) and not n.keywords
+                   and not any(isinstance(a_, ast.Starred) for a_ in n.args)]:
+            callees = [g for g in px.resolve_call(func, hc, by_name_fallback=False) if g.cls is None and g.outer is None and g.name.startswith("_")]
+            if len(callees) != 1:
+                continue
+            g = callees[0]
+            body = _simple_body(g)
+            params = [a.arg for a in g.node.args.args]
+            if body is None or len(params) != len(hc.args) or g.node.args.vararg or g.node.args.kwarg:
+                continue
+            env = dict(zip(params, hc.args))
+            out = []
+            for st, gd in pyfront.walk_guarded(body):
+                if isinstance(st, ast.Return) and st.value is not None:
+                    conds = []
+                    for t, pol in gd:
+                        tb = _Bind(env).visit(copy.deepcopy(pyfront.subst_locals(g.node, t)))
+                        conds += pyfront.guard_terms([(ast.fix_missing_locations(tb), pol)])
+                    val = pyfront.subst_locals(g.node, st.value)
+                    while isinstance(val, ast.Call) and ast.unparse(val.func) in ("typing.cast", "cast") and len(val.args) == 2:
+                        val = val.args[1]
+                    val = _Bind(env).visit(copy.deepcopy(val))
+
+                    class _R2(ast.NodeTransformer):
+                        def visit_Call(self, node):
+                            if node is hc_copy[0]:
+                                return copy.deepcopy(val)
+                            return self.generic_visit(node)
+                    ec = copy.deepcopy(e)
+                    hc_copy = [b for a, b in zip(ast.walk(e), ast.walk(ec)) if a is hc]
+                    ec = ast.fix_missing_locations(_R2().visit(ec))
+                    for c, p in _sym(px, func, ec, depth - 1, bound):
+                        out.append((tuple(conds) + c, p))
+            if out:
+                return out
     # a conditional buried inside an atom (`(a if c else b).replace(...)`) is lifted: one alternative per branch
     inner = next((n for n in ast.walk(e) if isinstance(n, ast.IfExp)), None)
     if inner is not None and depth > 0:
